@@ -378,6 +378,14 @@ def tbeLog (r : T) (bs : List T) (cutoff : Rat) : LogOut :=
       if x.1.tip then none
       else some (x.1.e.id, topoDepth n x.1, x.2.1 / nboot, x.2.2.map fun y => y.2 / nboot) }
 
+/-- `support.TBE` called on a reference that was never indexed (no `ReinitIndexes`, against the
+    precondition): nothing panics and nothing is annotated silently — the taxon check of the first
+    bootstrap tree fails ("Tip name index is not initialized …", tree.go:756). -/
+def tbeNotIndexed (r : T) (bs : List T) : Out (List Rat) :=
+  match bs with
+  | [] => .ok (r.splits.map fun _ => NIL)
+  | _ :: _ => .err
+
 /- ## the thread count (a configuration: `cpus` of FBP, `cpu` of TBE, `-t` of the commands)
 
    `if cpus < 1 { cpus = 1 }` (fbp.go:18, tbe.go:152, since 4aac0a9); with `cpus ≥ 1` workers the
